@@ -4,6 +4,7 @@ import (
 	"fmt"
 	"go/token"
 	"go/types"
+	"os"
 	"strings"
 
 	"golang.org/x/tools/go/ssa"
@@ -886,7 +887,7 @@ func (x *Run) loopMod(fr *Frame, lp *loop) *loopMod {
 	seen := map[*ssa.Function]bool{}
 	// function-typed parameters bound to known closures in this frame: their
 	// effects are those closures' effects, not "unknown code"
-	{
+	if !x.spec.dynCallsAlways[fr.fn.String()] {
 		allKnown := true
 		for _, prm := range fr.fn.Params {
 			if _, isSig := types.Unalias(prm.Type()).Underlying().(*types.Signature); !isSig {
@@ -915,6 +916,9 @@ func (x *Run) loopMod(fr *Frame, lp *loop) *loopMod {
 	}
 	lm.top = ms.Top
 	lm.preserves = ms.Preserves
+	if traceOn {
+		fmt.Fprintf(os.Stderr, "loopmod %s#%d top=%v why=%q preserves=%v\n", fr.fn.String(), lp.ordinal, ms.Top, ms.Why, ms.Preserves)
+	}
 	for a := range ms.Arrs {
 		lm.arrs[a] = true
 	}
